@@ -3,12 +3,12 @@
 // harness-file: peer.rs
 // harness: c14_bitfield_unchoke_rule
 // config: 
-// failed-check: unchoke <=> a slot is free and the peer was choked @ ../vh/peer.rs:137:5 in function peer::verif_kani::c14_bitfield_unchoke_rule
-// native-result: /var/tmp/rdest-verif.C14.28709/cfg-default/vh/peer.rs:137:5: unchoke <=> a slot is free and the peer was choked
+// failed-check: a peer is unchoked on Bitfield only while fewer than ten regular slots are in use (and only if it was choked) @ ../vh/peer.rs:139:5 in function peer::verif_kani::c14_bitfield_unchoke_rule
+// native-result: /var/tmp/rdest-verif.C14.27669/cfg-default/vh/peer.rs:139:5: a peer is unchoked on Bitfield only while fewer than ten regular slots are in use (and only if it was choked)
 // rerun: cd /verif && ./check C14 --replay /verif/evidence/replay/C14-c14_bitfield_unchoke_rule.rs
 /// Test generated for harness `peer::verif_kani::c14_bitfield_unchoke_rule` 
 ///
-/// Check for `assertion`: ""unchoke <=> a slot is free and the peer was choked""
+/// Check for `assertion`: ""a peer is unchoked on Bitfield only while fewer than ten regular slots are in use (and only if it was choked)""
 
 #[test]
 fn kani_concrete_playback_c14_bitfield_unchoke_rule_14564291994794273739() {
